@@ -259,6 +259,9 @@ class C12(Prop):
                                [0, 0.05, 0.2])}} for n in names],
              'env': rng.choice([None, {'GLOBAL': 'g1'}]), 'edit': 'initial'}
         for w0 in v['watchers']:
+            if rng.random() < 0.15:
+                # defined but not to be started by the daemon
+                w0['opts']['autostart'] = 'False'
             if rng.random() < 0.25:
                 w0['opts']['stdout_stream.class'] = 'FileStream'
                 w0['opts']['stdout_stream.filename'] = \
@@ -285,6 +288,8 @@ class C12(Prop):
                     ws.append({'name': rng.choice(free),
                                'np': rng.choice([1, 2]),
                                'opts': {'graceful_timeout': 0.05}})
+                    if rng.random() < 0.25:
+                        ws[-1]['opts']['autostart'] = 'False'
             if kind == 'remove':
                 ws.pop(rng.randrange(len(ws)))
             elif kind == 'np':
